@@ -219,9 +219,7 @@ theorem ensureRefblock_existing_acct {d d' : Dev} {off : Nat} (hA : Acct d)
     (hidx : Host.rtIndex d.info off < d.rtLen)
     (hnz : RT.isZero (d.rt.get (Host.rtIndex d.info off)) = false)
     (h : ensureRefblock off d = (d', .ok ())) : Acct d' := by
-  unfold ensureRefblock at h
-  dsimp only at h
-  rw [if_pos hidx, if_pos (by simp [hnz])] at h
+  rw [ensureRefblock_existing hidx hnz] at h
   simp only [Prod.mk.injEq, and_true] at h
   subst h; exact hA
 
